@@ -348,6 +348,11 @@ func (f *Formatter) renderPreContent(n *html.Node, buf *strings.Builder) {
 	for c := n.FirstChild; c != nil; c = c.NextSibling {
 		switch c.Type {
 		case html.TextNode:
+			if n.Data == "script" || n.Data == "style" {
+				// raw text: entities are not decoded by the parser, so they must not be encoded
+				buf.WriteString(c.Data)
+				continue
+			}
 			buf.WriteString(escapeText(c.Data))
 		case html.ElementNode:
 			buf.WriteString(f.renderOpenTag(c))
